@@ -290,6 +290,76 @@ theorem crash_inside_resume_header_unreadable (api : Api) (o : WOpts) (roots : O
   refine ⟨s, ?_, inv, hc, hf⟩
   rw [h1, hsame]
   simpa [resume] using hres
+/-- (9c) … and in between: the second header write of a resumption torn inside the DataOffset field (`k ≤ 8`
+    of its bytes zeroed, the characteristics already zero). The field then reads as DataOffset rounded down
+    to a multiple of `256^k`: unchanged (→ (9)), zero (→ (9b)), or a value that is neither zero nor the
+    session's offset, which `Resume` refuses without writing. In every case: refused with the file untouched,
+    or resumed with exactly the acknowledged blocks. -/
+theorem crash_inside_resume_dataoffset_torn (api : Api) (o : WOpts) (roots : Option (List Cid)) (log : List Block)
+    (fi : Bool) (k : Nat) (hk : k ≤ 8) (hv2 : o.v1 = false)
+    (hwf : (CarHeader.mk roots 1).wf) (hmax : (encodeHeaderBody ⟨roots, 1⟩).length ≤ o.maxHeader)
+    (hmax32 : (encodeHeaderBody ⟨roots, 1⟩).length ≤ 32 * 2 ^ 20)
+    (lok : LayoutOK o.dataPad o.indexPad (payload roots log).length) (hlog : LogOK' log) :
+    let H := finalHeader o.dataPad o.indexPad (payload roots log).length true fi
+    let image := pragma ++ (zeros 16 ++ (zeros k ++ (le64 H.dataOffset).drop k) ++ le64 H.dataSize ++ le64 H.indexOffset)
+        ++ (zeros o.dataPad ++ (payload roots log ++ []))
+    ((∃ e, (resume api o roots image).res = .error e) ∧ (resume api o roots image).file = image) ∨
+    (∃ s, (resume api o roots image).res = .ok s ∧ Inv o roots s log ∧ s.closed = false ∧ s.finalized = false) := by
+  intro H image
+  have hp := payload_length_pos roots log
+  have hHwf : H.wf := finalHeader_wf o.dataPad o.indexPad (payload roots log).length true fi hp lok
+  have hbase : o.base = 51 + o.dataPad := by simp [WOpts.base, hv2]
+  have hoff : H.dataOffset = 51 + o.dataPad := by simp [H, finalHeader]
+  -- the slot as a header value
+  have hbytes : zeros 16 ++ (zeros k ++ (le64 H.dataOffset).drop k) ++ le64 H.dataSize ++ le64 H.indexOffset
+      = ({ H with charHi := 0, charLo := 0, dataOffset := H.dataOffset - H.dataOffset % 256 ^ k } : V2Header).bytes := by
+    have z16 : zeros 16 = le64 0 ++ le64 0 := by rw [le64_zero]; simp [zeros]
+    simp only [V2Header.bytes, z16, le64_low_zeroed k _ hk]
+  have himg : image = pragma ++ ({ H with charHi := 0, charLo := 0, dataOffset := H.dataOffset - H.dataOffset % 256 ^ k } : V2Header).bytes
+      ++ (zeros o.dataPad ++ (payload roots log ++ [])) := by simp only [image, hbytes]
+  have hle : H.dataOffset - H.dataOffset % 256 ^ k ≤ H.dataOffset := Nat.sub_le _ _
+  by_cases hsame : H.dataOffset % 256 ^ k = 0
+  · -- the field is unchanged: (9) with zero characteristics
+    right
+    have h9 := crash_inside_resume_offsets_intact api o roots log fi 0 0 (by decide) (by decide) hv2 hwf hmax hmax32 lok hlog
+    simp only at h9
+    obtain ⟨s, hr, inv, hc, hf, _⟩ := h9
+    refine ⟨s, ?_, inv, hc, hf⟩
+    rw [himg]
+    simpa [hsame, H] using hr
+  · by_cases hzero : H.dataOffset - H.dataOffset % 256 ^ k = 0
+    · -- reads as zero: not a header any more
+      right
+      have hbad := readV2Header_bytes_small_offset
+        ({ H with charHi := 0, charLo := 0, dataOffset := H.dataOffset - H.dataOffset % 256 ^ k } : V2Header)
+        (show (0:Nat) < 2 ^ 64 by decide) (show (0:Nat) < 2 ^ 64 by decide) (by simp only [hzero]; decide)
+        (Nat.lt_trans hHwf.dSize.2 (by decide)) (Nat.lt_trans hHwf.iOff (by decide))
+        (zeros o.dataPad ++ payload roots log)
+      obtain ⟨s, hr, inv, hc, hf⟩ := crash_inside_resume_header_unreadable api o roots log _ (V2Header.bytes_length _)
+        .badHeader hv2 hbad hwf hmax hmax32 hlog
+      refine ⟨s, ?_, inv, hc, hf⟩
+      rw [himg]
+      simpa [resume] using hr
+    · -- neither zero nor the session's offset: refused, nothing written
+      left
+      have hk0 : k ≠ 0 := by intro h0; subst h0; simp [Nat.mod_one] at hsame
+      have hge : 256 ≤ H.dataOffset - H.dataOffset % 256 ^ k := by
+        have hdvd : 256 ^ k ∣ H.dataOffset - H.dataOffset % 256 ^ k := Nat.dvd_sub_mod _
+        obtain ⟨q, hq⟩ := hdvd
+        have hq0 : q ≠ 0 := by intro h; rw [h] at hq; simp at hq; exact hzero hq
+        have h256 : 256 ≤ 256 ^ k := by
+          calc 256 = 256 ^ 1 := by simp
+            _ ≤ 256 ^ k := Nat.pow_le_pow_right (by decide) (by omega)
+        calc 256 ≤ 256 ^ k := h256
+          _ ≤ 256 ^ k * q := Nat.le_mul_of_pos_right _ (by omega)
+          _ = _ := hq.symm
+      have hwf' : ({ H with charHi := 0, charLo := 0, dataOffset := H.dataOffset - H.dataOffset % 256 ^ k } : V2Header).wf :=
+        ⟨(show (0:Nat) < 2 ^ 64 by decide), (show (0:Nat) < 2 ^ 64 by decide), ⟨by simp only; omega, Nat.lt_of_le_of_lt hle hHwf.dOff.2⟩, hHwf.dSize, hHwf.iOff⟩
+      have hne : H.dataOffset - H.dataOffset % 256 ^ k ≠ o.base := by
+        rw [hbase, ← hoff]; omega
+      obtain ⟨e, he⟩ := resumeCore_header_refused api o roots _ (zeros o.dataPad ++ (payload roots log ++ [])) hv2 hwf' (Or.inl hne)
+      rw [himg]
+      exact ⟨⟨e, by simp only [resume, he]⟩, by simp only [resume, he, applyWrites, List.foldl_nil]⟩
 /-- Non-vacuity of (6)/(7): a concrete session, header cut at 37 and at 25 bytes. -/
 example : LayoutOK 0 0 60 ∧ (32 ≤ 37 ∧ 37 ≤ 40) ∧ (24 ≤ 25 ∧ 25 ≤ 32 ∧ 60 % 256 ^ (25 - 24) ≠ 0) := by
   refine ⟨⟨by decide, by decide, by decide⟩, by decide, by decide⟩
